@@ -69,6 +69,14 @@ def gen_cases(ctx):
             c.pop("sigma", None)
             c.update(full_eps=True, full_mu=bool((i // 4) % 2), pow2=True)
         cases.append(c)
+    # 9-component tiers on stretched grids (width-weighted co-location averages): implementation round-trip predicate only
+    for i in range(ctx.pick(2, 8)):
+        c = C01.rand_case(ctx.rng, ctx.quick, 4 * i + 1)
+        rng = ctx.rng
+        c["edges"] = [list(np.concatenate([[0.0], np.cumsum([rng.choice([0.75, 1.0, 1.5, 2.0]) for _ in range(n)])]) * 2.0 ** -23) for n in c["shape"]]
+        c.pop("sigma", None)
+        c.update(kind="hand", steps=2, back=2, full_eps=(i % 3 != 1), full_mu=(i % 3 != 0), pow2=True, stretched9=True)
+        cases.append(c)
     for i in range(n_placed):
         cases.append(placed_case(ctx.rng, ctx.quick, i))
     return cases
@@ -84,7 +92,7 @@ def run_cases(ctx, cases):
 
 
 def modelled(case, out):
-    return "error" not in out and (out.get("ncomp_eps", 1) != 9 or case["kind"] == "hand")
+    return "error" not in out and (out.get("ncomp_eps", 1) != 9 or case["kind"] == "hand") and not case.get("stretched9")
 
 
 def coq_expr(case, out):
@@ -126,7 +134,7 @@ def nontrivial(case, out):
 
 def classify(case, out):
     if case["kind"] == "hand":
-        return "hand|" + C01.classify(case, out) + ("|full-eps" if case.get("full_eps") else "") + ("|full-mu" if case.get("full_mu") else "")
+        return "hand|" + C01.classify(case, out) + ("|full-eps" if case.get("full_eps") else "") + ("|full-mu" if case.get("full_mu") else "") + ("|stretched" if case.get("stretched9") else "")
     m = case["spec"].get("mats") or {}
     return "placed|" + "+".join(s["kind"] + ("M" if s.get("mag") else "") for s in case["spec"]["sources"]) + \
         ("|sigE" if m.get("sigma_e") else "") + ("|sigH" if m.get("sigma_m") else "") + ("|full-tensor" if out.get("ncomp_eps") == 9 else "")
